@@ -22,4 +22,10 @@ CHECKS = {
   'note': COMMON_NOTE + 'Durations are unbounded Z seconds in the model (Go: int64 ns from an int32 hour count; no overflow for the quantified 1..720 h); os.ReadDir/Remove/Chtimes and mtime resolution are modelled, kept away from by a 120 s margin.',
   'technique': 'Coq proof (filter characterisation against an inductive own-file spec) + differential correspondence on real directories',
  },
+ 'C01': {
+  'text': 'Full on the model: c01_deliver_iff proves for every reference list (any length, any order), every logger range, with or without layout and every level code in Z that each referenced appender receives the event exactly once iff the logger range and the reference\'s declarative effective range contain the level, and nothing else receives anything; c01_sort_by_level_spec proves the sort-and-chain algorithm equal to the declarative "ends at the next strictly higher lower bound" (independent of declaration / tie order); c01_rolling, c01_entry_points and c01_parse_* cover the rolling split, the 15 entry points and range strings. The built-in level table is regenerated from the code on every run (Gen/Params.v) and its well-formedness re-proved. '
+          'Correspondence: generated Refresh configurations over all logger kinds, 50 probes each, observed at recording appenders / console / files.',
+  'note': COMMON_NOTE + 'Levels are compared by code (a second level registered with MAX\'s code but another name is outside the model); references of one logger are assumed to name distinct appenders; strings.TrimSpace/ToUpper are modelled for ASCII; the async queue itself is C04-C06. Non-separate rolling loggers do not deliver levels >= MAX (stated in c01_rolling).',
+  'technique': 'Coq proof (refinement of sort+chain to a declarative effective-range spec, permutation invariance) + differential correspondence through Refresh',
+ },
 }
